@@ -46,6 +46,7 @@ func runC19(c *Ctx) {
 	defer func() { r.Extra["analysis_seconds_excluding_load"] = time.Since(c19T0).Seconds() }()
 	r.Rule("C19.R1", "open maps (ordered, maxRetransmits?, maxPacketLifeTime?) to a ChannelType and acceptDataChannels maps every ChannelType back; the two tables are mutual inverses and equal RFC 8832 section 5.1; reliability parameter, label, protocol, negotiated are passed through unchanged on both sides, by newDataChannel and by the getters", 31)
 	r.Rule("C19.R4", "every locally opened channel owns its stream: generateAndSetDataChannelID finds a free id and reserves it in one write-locked critical section of the transport lock (two channels on one stream id collapse into one on the remote peer)", 1)
+	r.Rule("C19.R5", "the accept loop starts a remote channel's read loop (handleOpen) only after an unconditional receive from the done channel of onDataChannel, which is closed after the OnDataChannel handler returned (messages the creator sent right after its OnOpen are not read before OnMessage can be registered)", 2)
 	r.Rule("C19.R2", "readLoop delivers exactly one onMessage per successful read (none for a failed one) with a private copy of buffer[:n] and the read's isString; onMessage invokes the handler at most once with its argument; Send / SendText write their payload with isString false / true", 4)
 	r.Rule("C19.R3", "in-band parameters are stored per channel: every pointer placed in the DataChannelParameters of an accepted channel (ID, MaxRetransmits, MaxPacketLifeTime) points to a variable declared inside the accept loop body, and the pointer variables themselves are declared there", 5)
 	r.NotCovered = append(r.NotCovered,
@@ -425,6 +426,7 @@ func runC19(c *Ctx) {
 	c19R2(c, readLoop, onMessage, dcPkg)
 	c19R3(c, "C19.R3", "")
 	c19R4(c) // c19b.go
+	c19R5(c) // c39b.go
 
 	if c.Thorough {
 		c05Config386(c, func(c2 *Ctx) { runC19(c2) })
